@@ -405,7 +405,6 @@ def c15_history(prop, key, index, tier):
             got = _topo_checks(out, wrapper, None, None, None, where + " (nested alone in a wrapper)")
             if got is not True:
                 out.violation('check_cycles-wrong-tree', "%s nested alone in a wrapper: check_cycles() returned %r" % (where, got))
-            wrapper.jobs.clear()
     out.count('cyclic<->acyclic transitions', flips)
     out.nontrivial = flips > 0
     return finish(prop, out, key, index, tier, 'c15_history', (key,), dict(nodes=n, transitions=flips, steps=steps))
